@@ -119,17 +119,29 @@ class BinwisePatchwiseArray(BinwiseData, PatchwiseData, HdfSerializable, Broadca
         # sum over all (total of num_paches**2) pairs of patches per bin
         sum_patches = np.einsum("bij->b", bin_patch_array)
 
-        # jackknife efficiency trick: take the sum from above and, for the i-th
-        # sample, subtract the contribution of pairs containing the i-th patch:
-        # 1) repeat the sum to final shape of samples (num_samples, num_bins)
-        sum_tiled = np.tile(sum_patches, (self.num_patches, 1))
-        # 2) compute the sum over pairs formed by the i-th patch with all others
-        row_sum = np.einsum("bij->jb", bin_patch_array)
-        # 3) compute the sum over pairs formed by all other patches with i-th
-        col_sum = np.einsum("bij->ib", bin_patch_array)
-        # 4) compute the sum over diagonals because it is counted twice in 2 & 3
-        diag = np.einsum("bii->ib", bin_patch_array)
-        samples = sum_tiled - row_sum - col_sum + diag
+        # jackknife samples: for the k-th sample sum over all pairs of patches
+        # that do not contain the k-th patch, i.e. over the four blocks of the
+        # array left and right / above and below of row and column k. The block
+        # sums are obtained from cumulative sums starting in the four corners.
+        # (Subtracting row and column k from the total instead leaves rounding
+        # noise where the exact result is zero, e.g. if a single patch contains
+        # all objects of a bin.)
+        num_patches = self.num_patches
+        idx = np.arange(num_patches)
+        ridx = num_patches - 1 - idx
+
+        def corner_sums(array: NDArray) -> NDArray:
+            """Element [b, i, j] is the sum over array[b, :i, :j]."""
+            sums = np.zeros((len(array), num_patches + 1, num_patches + 1))
+            sums[:, 1:, 1:] = array.cumsum(axis=1).cumsum(axis=2)
+            return sums
+
+        samples = (
+            corner_sums(bin_patch_array)[:, idx, idx]
+            + corner_sums(bin_patch_array[:, :, ::-1])[:, idx, ridx]
+            + corner_sums(bin_patch_array[:, ::-1, :])[:, ridx, idx]
+            + corner_sums(bin_patch_array[:, ::-1, ::-1])[:, ridx, ridx]
+        ).T
 
         return SampledData(self.binning, sum_patches, samples)
 
